@@ -39,14 +39,14 @@ def lang_equal_bad(job, v1, v2, syms, label, rp, B=None):
             a, b = v1.step(a, W[l]), v2.step(b, W[l])
 
 
-def job_two_runs_dfa(job, which, n, k):
+def job_two_runs_dfa(job, which, n, k, perm=None, exh=14):
     import gambatools.dfa_algorithms as DA
     import gambatools.nfa_algorithms as NA
     import gambatools.regexp_algorithms as RA
     from .oracles import DfaView
     from .harness_util import count_map
     d = E.dag
-    L.ORDER['mode'] = 'symbolic'
+    c.set_exhaustive(exh)
     job.functions('dfa_algorithms', ['dfa_minimize', 'dfa_from_table', 'dfa_quotient', 'dfa_hopfcroft', 'dfa_isomorphic', 'dfa_isomorphic1'])
     Dm, names, syms = c.sym_dfa(n, k)
     view = DfaView(Dm, names, syms)
@@ -54,6 +54,7 @@ def job_two_runs_dfa(job, which, n, k):
     job.decoders['D'] = view.to_json
     rp = ('two_runs', {'D': view.to_json, 'which': which})
     E.while_bound = 4 * n * max(k, 1) + 10
+    L.ORDER['mode'] = 'symbolic'      # from here on: every iteration over a set follows a symbolic permutation
     if which in ('dfa_minimize', 'dfa_quotient', 'dfa_hopfcroft'):
         f = getattr(DA, which)
         R1 = job.call(f, Dm, replay=rp)
@@ -68,14 +69,21 @@ def job_two_runs_dfa(job, which, n, k):
         job.oblige('%s: both runs return the same number of states' % which, d.any_(d.and_(g, h) for a_, g in s1.items() for b_, h in s2.items() if a_ != b_), replay=rp)
     elif which == 'dfa_to_regexp':
         from .regexp_sym import Sem
+        # only the order in which states are ripped matters (iteration of Q - {start, accept}); it is symbolic for
+        # n = 2 and a pair of concrete permutations (perm 0 against perm p) for n = 3
+        L.ORDER['filter'] = lambda elems: not any(str(e) in ('start', 'accept') for e in elems)
+        if perm is not None:
+            L.ORDER['concrete_perm'] = 0
         r1 = job.call(RA.dfa_to_regexp, Dm, replay=rp)
         fresh_orders()
+        if perm is not None:
+            L.ORDER['concrete_perm'] = perm
         r2 = job.call(RA.dfa_to_regexp, Dm, replay=rp)
         job.lifted()
         if r1 is None or r2 is None:
             return job.solve()
         sem = Sem()
-        for w in c.words_upto(syms, 3):
+        for w in c.words_upto(syms, 4 if k > 1 else 6):
             job.oblige('dfa_to_regexp: both runs denote %r or neither' % w, d.iff(sem.member(r1, w), sem.member(r2, w)) ^ 1, replay=rp)
     elif which in ('dfa_isomorphic', 'dfa_isomorphic1'):
         D2, names2, _ = c.sym_dfa(n, k, tag='B', names=['p%d' % i for i in range(n)])
@@ -201,6 +209,109 @@ def job_printers(job, n, k):
     return job.solve()
 
 
+def job_purity_dfa(job, n, k, n2=2):
+    """every DFA operation that returns a new object leaves its argument(s) unchanged (one obligation per operation,
+    checked right after the call)"""
+    import gambatools.dfa_algorithms as DA
+    import gambatools.regexp_algorithms as RA
+    from .oracles import DfaView
+    from .C14 import dfa_changed
+    names_ops = ['dfa_complement', 'dfa_reverse', 'dfa_no_prefix', 'dfa_no_extend', 'dfa_remove_unreachable_states', 'dfa_make_total',
+                 'dfa_minimize', 'dfa_quotient', 'dfa_hopfcroft']
+    job.functions('dfa_algorithms', names_ops + ['dfa_product', 'dfa_union', 'dfa_intersection', 'dfa_symmetric_difference', 'dfa_isomorphic', 'dfa_isomorphic1'])
+    job.functions('regexp_algorithms', ['dfa_to_regexp', 'dfa_to_gnfa', 'gnfa_minimize'])
+    d = E.dag
+    c.set_exhaustive(16)
+    Dm, names, syms = c.sym_dfa(n, k)
+    D2, names2, _ = c.sym_dfa(n2, k, tag='B', names=['p%d' % i for i in range(n2)])
+    v1, v2 = DfaView(Dm, names, syms), DfaView(D2, names2, syms)
+    job.inputs['D'], job.inputs['D2'] = Dm, D2
+    job.decoders['D'], job.decoders['D2'] = v1.to_json, v2.to_json
+    E.while_bound = 4 * n * max(k, 1) + 12
+    # dfa_to_regexp first: it needs the encoder's exact pruning, which is available while the job has few variables
+    ops = [('dfa_to_regexp', RA.dfa_to_regexp, (Dm,))]
+    ops += [(nm, getattr(DA, nm), (Dm,)) for nm in names_ops if not (nm == 'dfa_quotient' and n > 2)]
+    ops += [(nm, getattr(DA, nm), (Dm, D2)) for nm in ('dfa_union', 'dfa_intersection', 'dfa_symmetric_difference', 'dfa_isomorphic', 'dfa_isomorphic1')]
+    results = {}
+    for nm, f, args in ops:
+        rp = ('purity_dfa', {'D': v1.to_json, 'D2': v2.to_json, 'op': nm})
+        results[nm] = job.call(f, *args, replay=rp)
+        job.oblige('%s leaves its first argument unchanged' % nm, dfa_changed(v1, DfaView(Dm, names, syms)), replay=rp)
+        if len(args) == 2:
+            job.oblige('%s leaves its second argument unchanged' % nm, dfa_changed(v2, DfaView(D2, names2, syms)), replay=rp)
+    # result and argument must not share mutable parts that a later in-place operation on the *result* would push into the
+    # argument: make the complement total / modify it in place and look at the argument again
+    R = results.get('dfa_complement')
+    if R is not None and not isinstance(R, L.U):
+        rp = ('purity_dfa', {'D': v1.to_json, 'D2': v2.to_json, 'op': 'dfa_complement+modify'})
+        L.CALLM(R.F, 'add', names[0])
+        L.CALLM(R.F, 'discard', names[-1])
+        job.oblige('modifying the accepting set of dfa_complement(D) in place does not change D', dfa_changed(v1, DfaView(Dm, names, syms)), replay=rp)
+    job.lifted()
+    job.failures_as_obligations(replay=('purity_dfa', {'D': v1.to_json, 'D2': v2.to_json, 'op': 'all'}))
+    return job.solve()
+
+
+def job_purity_nfa(job, n, k, eps='_'):
+    """NFA operations leave their operands unchanged, also when the same operand is used twice and when results of earlier
+    calls are used as operands of later ones (history)"""
+    import gambatools.nfa_algorithms as NA
+    from .oracles import NfaView
+    from .C18 import nfa_changed
+    job.functions('nfa_algorithms', ['nfa_union', 'nfa_concatenation', 'nfa_repetition', 'nfa_to_dfa', '_copy_transitions', '_fresh_state'])
+    d = E.dag
+    N1, names1, syms = c.sym_nfa(n, k, eps=eps, tag='A', names=['a%d' % i for i in range(n)], partial=True)
+    N2, names2, _ = c.sym_nfa(n, k, eps=eps, tag='B', names=['b%d' % i for i in range(n)], partial=True)
+    v1, v2 = NfaView(N1, names1, syms), NfaView(N2, names2, syms)
+    job.inputs['N1'], job.inputs['N2'] = N1, N2
+    job.decoders['N1'], job.decoders['N2'] = v1.to_json, v2.to_json
+    E.while_bound = 2 ** n + 6
+    seq = [('nfa_repetition', lambda: NA.nfa_repetition(N1)), ('nfa_concatenation', lambda: NA.nfa_concatenation(N1, N2)),
+           ('nfa_union', lambda: NA.nfa_union(N1, N2)), ('nfa_repetition again', lambda: NA.nfa_repetition(N1)),
+           ('nfa_concatenation(N2, N1)', lambda: NA.nfa_concatenation(N2, N1)), ('nfa_to_dfa', lambda: NA.nfa_to_dfa(N1))]
+    for nm, f in seq:
+        rp = ('purity_nfa', {'N1': v1.to_json, 'N2': v2.to_json, 'upto': nm})
+        job.call(f, replay=rp)
+        job.oblige('after %s: first operand unchanged' % nm, nfa_changed(v1, NfaView(N1, names1, syms)), replay=rp)
+        job.oblige('after %s: second operand unchanged' % nm, nfa_changed(v2, NfaView(N2, names2, syms)), replay=rp)
+    job.lifted()
+    job.failures_as_obligations(replay=('purity_nfa', {'N1': v1.to_json, 'N2': v2.to_json, 'upto': 'all'}))
+    return job.solve()
+
+
+def job_nfa_history(job, op, n, k, K=3):
+    """same operands, different call history: the shared default IdentifierGenerator starts at any index 0..K (= after any K
+    earlier calls); the operation is called twice in a row; both results must have the same language. Operand state names are
+    drawn from the names the generator produces (q0, q1, ...), which is where history can leak into the result."""
+    import gambatools.nfa_algorithms as NA
+    from .oracles import NfaView
+    from .C18 import set_generator_history, nfa_changed
+    job.functions('nfa_algorithms', ['nfa_union', 'nfa_repetition', '_fresh_state', '_copy_transitions'])
+    job.functions('identifier_generator', ['IdentifierGenerator'])
+    d = E.dag
+    hist = set_generator_history(K)
+    N1, names1, syms = c.sym_nfa(n, k, eps='', tag='A', names=['p%d' % i for i in range(n)], partial=True)
+    N2, names2, _ = c.sym_nfa(n, k, eps='', tag='B', names=['q%d' % (i + 1) for i in range(n)], partial=True)
+    v1, v2 = NfaView(N1, names1, syms), NfaView(N2, names2, syms)
+    job.inputs['N1'], job.inputs['N2'] = N1, N2
+    job.decoders['N1'], job.decoders['N2'] = v1.to_json, v2.to_json
+    job.inputs['history'] = None
+    job.decoders['history'] = lambda mv: [c.conc(h, mv) for h in hist]
+    rp = ('nfa_history', {'N1': v1.to_json, 'N2': v2.to_json, 'op': op, 'history': lambda mv: [c.conc(h, mv) for h in hist], 'K': K})
+    f = (lambda: NA.nfa_union(N1, N2)) if op == 'nfa_union' else (lambda: NA.nfa_repetition(N2))
+    R1 = job.call(f, replay=rp)
+    R2 = job.call(f, replay=rp)
+    job.lifted()
+    if R1 is not None and R2 is not None:
+        r1, r2 = NfaView(R1, None, syms), NfaView(R2, None, syms)
+        for w in c.words_upto(syms, 3 if k > 1 else 4):
+            job.oblige('%s: first and second call (different generator history) accept %r or neither' % (op, w),
+                       d.iff(r1.accepts(w), r2.accepts(w)) ^ 1, replay=rp)
+    job.oblige('operands unchanged', d.or_(nfa_changed(v1, NfaView(N1, names1, syms)), nfa_changed(v2, NfaView(N2, names2, syms))), replay=rp)
+    job.failures_as_obligations(replay=rp)
+    return job.solve()
+
+
 def job_pda_to_cfg_twice(job, fam, nsym=4):
     """pda_to_cfg called twice on the same argument: the argument is unchanged and both grammars have the same size"""
     import gambatools.pda_algorithms as PA
@@ -245,12 +356,23 @@ def jobs(tier):
     q = tier == 'quick'
     tmo = 900 if q else 3000
     add('two_runs_minimize_n3_k1', job_two_runs_dfa, which='dfa_minimize', n=3, k=1, timeout=tmo)
-    add('two_runs_minimize_n3_k2', job_two_runs_dfa, which='dfa_minimize', n=3, k=2, timeout=tmo)
+    add('two_runs_minimize_n2_k2', job_two_runs_dfa, which='dfa_minimize', n=2, k=2, timeout=tmo)
+    if not q:
+        add('two_runs_minimize_n3_k2', job_two_runs_dfa, which='dfa_minimize', n=3, k=2, timeout=tmo)
     add('two_runs_quotient_n2_k2', job_two_runs_dfa, which='dfa_quotient', n=2, k=2, timeout=tmo)
     add('two_runs_hopcroft_n2_k2', job_two_runs_dfa, which='dfa_hopfcroft', n=2, k=2, timeout=tmo)
     add('two_runs_hopcroft_n3_k1', job_two_runs_dfa, which='dfa_hopfcroft', n=3, k=1, timeout=tmo)
     add('two_runs_dfa_to_regexp_n2_k2', job_two_runs_dfa, which='dfa_to_regexp', n=2, k=2, timeout=tmo)
-    add('two_runs_dfa_to_regexp_n3_k1', job_two_runs_dfa, which='dfa_to_regexp', n=3, k=1, timeout=tmo)
+    for p in range(1, 6):
+        add('two_runs_dfa_to_regexp_n3_k1_p%d' % p, job_two_runs_dfa, which='dfa_to_regexp', n=3, k=1, perm=p, timeout=tmo)
+        add('two_runs_dfa_to_regexp_n3_k2_p%d' % p, job_two_runs_dfa, which='dfa_to_regexp', n=3, k=2, perm=p, exh=15, timeout=tmo)
+    add('nfa_history_union_n2_k1', job_nfa_history, op='nfa_union', n=2, k=1, timeout=tmo)
+    add('nfa_history_union_n2_k2', job_nfa_history, op='nfa_union', n=2, k=2, timeout=tmo)
+    add('nfa_history_repetition_n2_k2', job_nfa_history, op='nfa_repetition', n=2, k=2, timeout=tmo)
+    add('purity_dfa_n2_k2', job_purity_dfa, n=2, k=2, timeout=tmo)
+    add('purity_dfa_n3_k1', job_purity_dfa, n=3, k=1, timeout=tmo)
+    add('purity_nfa_n2_k1', job_purity_nfa, n=2, k=1, timeout=tmo)
+    add('purity_nfa_n2_k2_eps_empty', job_purity_nfa, n=2, k=2, eps='', timeout=tmo)
     add('two_runs_isomorphic_n2_k2', job_two_runs_dfa, which='dfa_isomorphic', n=2, k=2, timeout=tmo)
     add('two_runs_isomorphic1_n2_k2', job_two_runs_dfa, which='dfa_isomorphic1', n=2, k=2, timeout=tmo)
     add('two_runs_nfa_to_dfa_n2_k2', job_two_runs_nfa, which='nfa_to_dfa', n=2, k=2, timeout=tmo)
@@ -299,7 +421,29 @@ print(json.dumps(out))
     outs = {s: _sub(code, s) for s in range(0, 8)}
     vals = set(outs.values())
     mutated = any(v.endswith('false]') for v in vals)
-    return len(vals) > 1 or mutated or any(v.startswith('ERR') for v in vals), {'results by PYTHONHASHSEED': outs}
+    if len(vals) > 1 or mutated or any(v.startswith('ERR') for v in vals):
+        return True, {'results by PYTHONHASHSEED': outs}
+    if which in ('dfa_minimize', 'dfa_quotient', 'dfa_hopfcroft') and not rp.get('_padded'):
+        # CPython iterates small sets (<= 4 strings) and their copies in the same order under every seed, so an
+        # order-dependent counterexample found on a small DFA cannot show there. Amplified replay: the same DFA with extra
+        # unreachable states, each a duplicate of an existing state (language and number of classes unchanged)
+        Dj = rp['D']
+        for extra in (5 - len(Dj['Q']), 7 - len(Dj['Q'])):
+            if extra <= 0:
+                continue
+            P = {'Q': list(Dj['Q']), 'Sigma': list(Dj['Sigma']), 'delta': [list(t) for t in Dj['delta']], 'q0': Dj['q0'], 'F': list(Dj['F'])}
+            for i in range(extra):
+                src = Dj['Q'][i % len(Dj['Q'])]
+                nm = 'r%d' % i
+                P['Q'].append(nm)
+                P['delta'] += [[nm, a, t] for (p_, a, t) in Dj['delta'] if p_ == src]
+                if src in Dj['F']:
+                    P['F'].append(nm)
+            ok, detail = _replay_two_runs(dict(rp, D=P, _padded=True))
+            if ok:
+                detail['padded input (unreachable duplicates added)'] = P
+                return True, detail
+    return False, {'results by PYTHONHASHSEED': outs}
 
 
 def _replay_two_runs_nfa(rp):
@@ -367,4 +511,64 @@ def _replay_pda_twice(rp):
     return mid != before or nat.pda_json_of(P) != before or len(G1.V) != len(G2.V), {'argument changed': mid != before, 'variables': [len(G1.V), len(G2.V)]}
 
 
-REPLAY = {'two_runs': _replay_two_runs, 'two_runs_nfa': _replay_two_runs_nfa, 'logging': _replay_logging, 'printers': _replay_printers, 'pda_twice': _replay_pda_twice}
+def _replay_purity_dfa(rp):
+    import gambatools.dfa_algorithms as DA
+    import gambatools.regexp_algorithms as RA
+    D, D2 = nat.mk_dfa(rp['D']), nat.mk_dfa(rp['D2'])
+    b1, b2 = nat.dfa_json_of(D), nat.dfa_json_of(D2)
+    unary = ['dfa_complement', 'dfa_reverse', 'dfa_no_prefix', 'dfa_no_extend', 'dfa_remove_unreachable_states', 'dfa_make_total',
+             'dfa_minimize', 'dfa_quotient', 'dfa_hopfcroft']
+    binary = ['dfa_union', 'dfa_intersection', 'dfa_symmetric_difference', 'dfa_isomorphic', 'dfa_isomorphic1']
+    changed = []
+    try:
+        for nm in unary + ['dfa_to_regexp'] + binary:
+            f = getattr(DA, nm, None) or getattr(RA, nm)
+            R = f(D, D2) if nm in binary else f(D)
+            if nm == 'dfa_complement':
+                R.F.add(sorted(D.Q)[0]); R.F.discard(sorted(D.Q)[-1])
+            if nat.dfa_json_of(D) != b1 or nat.dfa_json_of(D2) != b2:
+                changed.append(nm)
+                D, D2 = nat.mk_dfa(rp['D']), nat.mk_dfa(rp['D2'])
+    except Exception as e:
+        return True, {'raised': repr(e)}
+    return bool(changed), {'operations that changed an argument': changed}
+
+
+def _replay_purity_nfa(rp):
+    import gambatools.nfa_algorithms as NA
+    N1, N2 = nat.mk_nfa(rp['N1']), nat.mk_nfa(rp['N2'])
+    norm = lambda N: ([x for x in nat.nfa_json_of(N)['delta'] if x[2]], sorted(N.F), sorted(N.Q))
+    b1, b2 = norm(N1), norm(N2)
+    changed = []
+    try:
+        for nm, f in (('nfa_repetition', lambda: NA.nfa_repetition(N1)), ('nfa_concatenation', lambda: NA.nfa_concatenation(N1, N2)),
+                      ('nfa_union', lambda: NA.nfa_union(N1, N2)), ('nfa_repetition again', lambda: NA.nfa_repetition(N1)),
+                      ('nfa_concatenation(N2, N1)', lambda: NA.nfa_concatenation(N2, N1)), ('nfa_to_dfa', lambda: NA.nfa_to_dfa(N1))):
+            f()
+            if norm(N1) != b1 or norm(N2) != b2:
+                changed.append(nm)
+    except Exception as e:
+        return True, {'raised': repr(e)}
+    return bool(changed), {'operations after which an operand differs': changed}
+
+
+def _replay_nfa_history(rp):
+    import gambatools.nfa_algorithms as NA
+    N1, N2 = nat.mk_nfa(rp['N1']), nat.mk_nfa(rp['N2'])
+    syms = sorted(set(rp['N1']['Sigma']) | set(rp['N2']['Sigma']))
+    words = nat.words_upto(syms, 4)
+    langs = []
+    try:
+        gens = [g for f in (NA.nfa_union, NA.nfa_repetition) for g in (f.__defaults__ or ()) if type(g).__name__ == 'IdentifierGenerator']
+        for g, h in zip(gens, rp['history']):
+            g.index = h
+        for _ in range(rp['K'] + 3):        # the same call again and again: only the history differs
+            R = NA.nfa_union(N1, N2) if rp['op'] == 'nfa_union' else NA.nfa_repetition(N2)
+            rj = nat.nfa_json_of(R)
+            langs.append(tuple(w for w in words if nat.ref_nfa_accepts(rj, w)))
+    except Exception as e:
+        return True, {'raised': repr(e)}
+    return len(set(langs)) > 1, {'languages (words <= 4) of successive identical calls': [list(l)[:6] for l in langs]}
+
+
+REPLAY = {'nfa_history': _replay_nfa_history, 'purity_dfa': _replay_purity_dfa, 'purity_nfa': _replay_purity_nfa, 'two_runs': _replay_two_runs, 'two_runs_nfa': _replay_two_runs_nfa, 'logging': _replay_logging, 'printers': _replay_printers, 'pda_twice': _replay_pda_twice}
